@@ -37,6 +37,10 @@ where
     ///
     /// If the bounds aren't valid for the given string data then None is returned.
     pub fn new(string: Ptr<String>, bounds: Range<usize>) -> Option<Self> {
+        // The bounds need to be within the string and on character boundaries,
+        // see the safety note in `as_str`.
+        string.get(bounds.clone())?;
+
         try_from_range(&bounds).map(|bounds| Self {
             data: string,
             bounds,
